@@ -884,14 +884,19 @@ class PreDef:
             @x;
             @x {...}
 
-        no nested yet!
+        the block may hold ";" and nested blocks
         """
 
         def rule(tokens):
             saved = []
+            depth = 0
             for t in tokens:
                 saved.append(t)
-                if t[1] == '}' or t[1] == ';':
+                if t[1] == '{':
+                    depth += 1
+                elif t[1] == '}':
+                    depth -= 1
+                if (t[1] == '}' and depth <= 0) or (t[1] == ';' and depth == 0):
                     return cssutils.css.CSSUnknownRule(saved)
 
         return Prod(
